@@ -200,6 +200,35 @@ func init() {
 		}
 		return withN(v1Val(&u), n)
 	})
+	// a history on ONE UUIDv1 value (see Model/DispC13.v v1_run)
+	Impl("v1.ops", func(a []Val) Val {
+		var u uuid_v1.UUIDv1
+		var outs []Val
+		for _, op := range a[0].L {
+			switch op.L[0].Int() {
+			case 0:
+				if _, err := u.Unmarshal(exact(op.L[1].B)); err != nil {
+					outs = append(outs, VErr())
+				} else {
+					outs = append(outs, v1Val(&u))
+				}
+			case 1:
+				u.Time = op.L[1].Uint()
+			case 2:
+				u.SetClockSequence(uint16(op.L[1].Uint()))
+			case 3:
+				u.SetNodeID(exact(op.L[1].B))
+			case 4:
+				b, err := u.Marshal()
+				if err != nil {
+					outs = append(outs, VErr())
+				} else {
+					outs = append(outs, B(b))
+				}
+			}
+		}
+		return L(outs...)
+	})
 	Impl("v1.from_bytes", func(a []Val) Val {
 		var u uuid_v1.UUIDv1
 		dirty(&u)
@@ -876,6 +905,29 @@ func genC13(c *Ctx) {
 			ns = []int64{0, 99, 100, 999999900, 999999999}[r.Intn(5)]
 		}
 		c.Check("c13.v1.time", I(sec), I(ns))
+	}
+	// histories on one UUIDv1 value: parse, set fields, parse the SAME bytes again (or others), marshal
+	for rep := 0; rep < c.N(300, 6000); rep++ {
+		x, y := r.Bytes(16), r.Bytes(16)
+		x[6], y[6] = x[6]&0x0f|0x10, y[6]&0x0f|0x10
+		pool := [][]byte{x, y, x}
+		var ops []Val
+		for k := 3 + r.Intn(6); k > 0; k-- {
+			switch r.Intn(6) {
+			case 0, 1:
+				ops = append(ops, L(I(0), B(pool[r.Intn(3)])))
+			case 2:
+				ops = append(ops, L(I(1), U(r.U64Edge()&0x0fffffffffffffff)))
+			case 3:
+				ops = append(ops, L(I(2), U(r.U64Edge()&0xfff)))
+			case 4:
+				ops = append(ops, L(I(3), B(r.Bytes(6))))
+			case 5:
+				ops = append(ops, L(I(4)))
+			}
+		}
+		ops = append(ops, L(I(0), B(x)), L(I(4)))
+		c.Case("v1.ops", L(ops...))
 	}
 	// reused receivers
 	for rep := 0; rep < c.N(300, 6000); rep++ {
